@@ -58,6 +58,16 @@ def _gen_file(rng, formats, tier, max_frames=None):
         # legal `dump custom` column layouts other than the one mdtraj writes (the reader detects the columns per file)
         knobs['layout'] = rng.choice(['std', 'std', 'mol_first', 'reordered'])
         knobs['line_order'] = rng.choice(['sorted', 'sorted', 'shuffled'])      # LAMMPS does not sort atom lines by id unless asked
+    # dialects of the format that other programs write (simlib/foreign.py rewrites the mdtraj-written file value for value)
+    if fmt == 'dcd' and rng.chance(0.45):
+        knobs['dialect'] = rng.choice(['be', 'fixed', 'fixed', 'be_fixed']) if n_atoms >= 2 else 'be'
+        knobs['fixed_bits'] = rng.below(1 << 16)
+    if fmt == 'trr' and rng.chance(0.45):
+        knobs['dialect'] = rng.choice(['double', 'double_v', 'double_f', 'double_vf', 'single_vf', 'single_v'])
+    if fmt == 'xyz' and rng.chance(0.35):
+        knobs['dialect'] = rng.choice(['empty_comment', 'blank_comment'])
+    if fmt == 'gro' and rng.chance(0.35):
+        knobs['dialect'] = 'velocities'
     # extension aliases registered for the same reader, gz variants, and where the molecule sits (negative and large coordinates)
     alias = {'nc': ['.nc', '.nc', '.netcdf', '.ncdf'], 'mdcrd': ['.mdcrd', '.crd'], 'h5': ['.h5', '.h5', '.hdf5'],
              'xyz': ['.xyz', '.xyz', '.xyz.gz'], 'pdb': ['.pdb', '.pdb.gz']}
@@ -250,6 +260,29 @@ class World(object):
             if fs['fmt'] == 'lammpstrj' and (fs['knobs'].get('layout', 'std') != 'std' or fs['knobs'].get('line_order') == 'shuffled'):
                 _relayout_lammpstrj(path, fs['knobs'].get('layout', 'std'), fs['knobs'].get('line_order') == 'shuffled', fs['seed'])
             x, tm, L, A = fmts.tagged_arrays(fs['n_frames'], fs['n_atoms'], fs['cell'], fs['seed'], origin)
+            dia = fs['knobs'].get('dialect')
+            if dia:
+                from .. import foreign
+                if fs['fmt'] == 'dcd':
+                    if 'fixed' in dia and fs['n_atoms'] >= 2:
+                        na = fs['n_atoms']
+                        fixed = [i for i in range(na) if (fs['knobs'].get('fixed_bits', 1) >> (i % 16)) & 1]
+                        if len(fixed) == na:
+                            fixed = fixed[:-1]
+                        if not fixed:
+                            fixed = [na - 1]
+                        foreign.dcd_fix_atoms(path, fixed)
+                        # what such a file means: the fixed atoms stay where the first frame has them
+                        x[1:, fixed] = x[0, fixed]
+                        t.xyz[1:, fixed] = t.xyz[0, fixed]
+                    if 'be' in dia:
+                        foreign.dcd_swap_endianness(path)
+                elif fs['fmt'] == 'trr':
+                    foreign.trr_rewrite(path, dia.startswith('double'), 'v' in dia.split('_')[-1] and '_' in dia, dia.endswith('f') and '_' in dia, fs['seed'])
+                elif fs['fmt'] == 'xyz':
+                    foreign.xyz_blank_comments(path, 'empty' if dia == 'empty_comment' else 'blank')
+                elif fs['fmt'] == 'gro':
+                    foreign.gro_add_velocities(path, fs['seed'])
             top_path = os.path.join(workdir, 'top%d.pdb' % k)
             self.files.append({'spec': fs, 'path': path, 'traj': t, 'xyz': x, 'time': tm, 'L': L, 'A': A, 'ox': origin[0],
                                'top_path': top_path, 'top_saved': False, 'F': None, 'shared_top': t.topology.copy()})
